@@ -271,6 +271,11 @@ func (e *Engine) load(t types.Type, p *Value) Value {
 // ---- path condition / solver ----
 
 func (e *Engine) syncSolver() {
+	if e.solver.Lost {
+		e.solver.Lost = false
+		e.solver.Push()
+		e.asserted = 0
+	}
 	for e.asserted < len(e.pc) {
 		e.solver.Assert(e.pc[e.asserted])
 		e.asserted++
@@ -287,9 +292,6 @@ func (e *Engine) check(extra *smt.Term) smt.Result {
 	r := e.solver.Check(extra)
 	if r == smt.Sat {
 		e.solver.EndCheck()
-	}
-	if e.solver.Lost {
-		e.resync()
 	}
 	return r
 }
@@ -462,9 +464,6 @@ func (e *Engine) modelFor(extra *smt.Term) (map[string]string, smt.Result) {
 	e.pathQueries++
 	r := e.solver.Check(extra)
 	if r != smt.Sat {
-		if e.solver.Lost {
-			e.resync()
-		}
 		return nil, r
 	}
 	vars := make([]*smt.Term, 0, len(e.inputs))
@@ -588,6 +587,7 @@ func (e *Engine) RunPath(fn *ssa.Function, prefix []int) (res PathResult) {
 	e.bind = map[*smt.Term]*smt.Term{}
 	e.substMemo = map[*smt.Term]*smt.Term{}
 	e.pathQueries = 0
+	e.solver.Lost = false
 	e.solver.Push()
 	defer func() {
 		e.killGoroutines()
